@@ -7,7 +7,7 @@
 From Coq Require Import String.
 From Emmet Require Import lib.Base lib.StrLit model.MarkupTokenizer model.MarkupParser model.MarkupConvert
      model.MarkupResolve proofs.ParserSpine proofs.TextSpec proofs.TextProofs proofs.TextParse proofs.TextLiteral
-     proofs.TextConvert.
+     proofs.TextConvert proofs.TextForest proofs.TextWrap.
 
 (* text_literal.  For EVERY payload T whose braces balance modulo escapes and whose `$` are escaped --
    operators, brackets, quotes, `*`, white space, line breaks, unicode included -- the front end
@@ -61,6 +61,47 @@ Theorem C04_placeholder_total :
     stringify env t st = Ok (placeholder_text env st, set_text_inserted (set_inserted st)).
 Proof. exact placeholder_total. Qed.
 Print Assumptions C04_placeholder_total.
+
+(* wrap_implicit.  X* over ALL line lists: one copy of X per non-blank line, in order; copy j holds the
+   j-th trimmed line at its `$#` placeholders ([ph = true]: see C04_placeholder_total for what `$#`
+   yields), otherwise ([ph = false]) the line is appended once to the deepest last element of the copy.
+   How X itself converts under counter j is a parameter ([copy j] may be ANY forest, [copy_spec] ties it
+   to the converter); the guard hypothesis says maxRepeat does not cut the copies short (that is C02).
+   _partial: [copy_spec] asks that converting X leaves the converter state alone apart from recording a
+   `$#`; this holds for X without nested repeaters (which consume the repeat budget) -- the general
+   case is covered by the correspondence and the oracle only. *)
+Theorem C04_wrap_implicit_partial :
+  forall (env : cenv) (mr : option N) (node : tnode) (r0 : rep) (lines : list str) (ph : bool)
+         (copy : nat -> list anode),
+    ce_text env = WList lines ->
+    node_rep node = Some r0 -> rimplicit r0 = true ->
+    let L := wrap_lines lines in
+    copy_spec (once_of env node) (N.of_nat (length L)) ph copy ->
+    (ph = true \/ forall j, copy j <> []) ->
+    (Z.of_nat (length L) <= match mr with Some m => Z.of_N m | None => 1000000 end)%Z ->
+    convert env mr [node] = Ok (concat (map (piece ph L copy) (seq 0 (length L)))).
+Proof. exact wrap_implicit_convert. Qed.
+Print Assumptions C04_wrap_implicit_partial.
+
+(* wrap_plain.  If converting the abbreviation did not consume the text (no implicit repeater, no `$#`),
+   the whole text, joined and stripped as the code does it, is inserted once into the deepest last element. *)
+Theorem C04_wrap_plain :
+  forall (env : cenv) (mr : option N) (root : list tnode) (children : list anode) (st : cst),
+    ce_text env <> WNone ->
+    conv_list env root
+      (mkCst false (match mr with Some m => Z.of_N m | None => 1000000%Z end) [] false) = Ok (children, st) ->
+    cs_text_inserted st = false ->
+    convert env mr root = Ok (on_last_deepest (fun n => insert_text n (whole_text (ce_text env))) children).
+Proof. exact wrap_plain. Qed.
+Print Assumptions C04_wrap_plain.
+
+(* "the deepest last element", for ALL forests: in document order every node keeps its depth and
+   payload, except the node visited last, whose value receives the text at its end *)
+Theorem C04_deepest_last_element :
+  forall (text : str) (items : list anode) (d : nat),
+    flatL d (on_last_deepest (fun n => insert_text n text) items) = map_last (pl_insert text) (flatL d items).
+Proof. exact insert_into_deepest_last. Qed.
+Print Assumptions C04_deepest_last_element.
 
 (* non-vacuity: a payload full of syntax satisfies the hypotheses, and the theorem's conclusion computes *)
 Example C04_nonvacuous :
